@@ -1755,6 +1755,11 @@ func TestZZVFloodScale(t *testing.T) {
 			plan = append(plan, sc{v, "long"})
 		}
 	}
+	for _, s := range strings.Split(os.Getenv("ZZV_SIZES_FWD"), ",") {
+		if v, err := strconv.Atoi(strings.TrimSpace(s)); err == nil {
+			plan = append(plan, sc{v, "fwd"})
+		}
+	}
 	defer func() { zzvMix = "" }()
 	for _, c := range plan {
 		N := c.n
@@ -1790,6 +1795,9 @@ func TestZZVFloodScale(t *testing.T) {
 				rec["missing_sample"], rec["extra_sample"] = mi, ex
 				nw.pred("C06", "set-differs:"+stage, fmt.Sprintf("origin a announces %d routes, %s holds %d of them after %s (%d missing, %d foreign)",
 					len(want), node, len(got), stage, len(rec["missing_sample"].([]string)), len(ex)), rec)
+				if rec["missing"].(int) > 0 {
+					nw.pred("C12", "not-learned", fmt.Sprintf("quiescent after %s: %s holds %d of the %d routes that a announced", stage, node, len(got), len(want)), rec)
+				}
 			}
 			zzvEmit("scale", rec)
 		}
@@ -1820,6 +1828,7 @@ func TestZZVFloodScale(t *testing.T) {
 			t.Fatal("zzv: no termination")
 		}
 		check("reannounce", "d")
+		nw.checkState(3)
 		// 5. a new peer of the origin itself: a replays its own routes (e never saw an announcement)
 		nw.connect("a", "e")
 		tr.ev(map[string]any{"ev": "Connect", "l": []string{"a", "e"}})
@@ -1867,17 +1876,18 @@ func TestZZVFloodChain(t *testing.T) {
 	rng := rand.New(rand.NewSource(zzvSeed()))
 	N := zzvEnvInt("ZZV_CHAIN", 260)
 	H := zzvEnvInt("ZZV_CHAIN_HOPS", 255)
-	names := make([]string, N+1)
+	names := make([]string, N+3)
 	hops := map[string]int{}
 	for i := range names {
 		names[i] = fmt.Sprintf("n%03d", i)
 		hops[names[i]] = H
 	}
-	joiner := names[N]
+	joiner, j2, j3 := names[N], names[N+1], names[N+2]
 	nw := zzvNewNet(names, map[string][]string{names[0]: {"r1"}}, hops, rng)
 	for i := 0; i+1 < N; i++ {
 		nw.up[zzvLinkKey(names[i], names[i+1])] = true
 	}
+	nw.up[zzvLinkKey(j2, j3)] = true
 	nw.reset(tr, names)
 	nw.tAnnounce(tr, names[0])
 	if !nw.drain(tr, 100000) {
@@ -1903,6 +1913,16 @@ func TestZZVFloodChain(t *testing.T) {
 		t.Fatal("zzv: no termination")
 	}
 	nw.checkState(N)
+	// a second joiner (with a neighbour behind it) connects one agent earlier: it is exactly max_hops away and may
+	// store the replayed route, but what it forwards (short seen-by list, path of max_hops+1 agents) goes too far
+	if H >= 2 && H < N {
+		nw.connect(names[H-1], j2)
+		tr.ev(map[string]any{"ev": "Connect", "l": []string{names[H-1], j2}})
+		if !nw.drain(tr, 100000) {
+			t.Fatal("zzv: no termination")
+		}
+		nw.checkState(N)
+	}
 	for _, e := range nw.sendErr {
 		nw.pred("C15", "send-failed", "a frame could not be sent: "+e, nil)
 	}
@@ -1911,6 +1931,7 @@ func TestZZVFloodChain(t *testing.T) {
 		zzvEmit("pred", p)
 	}
 	zzvEmit("summary", map[string]any{"chain": N, "maxhops": H, "holders": holders, "farthest": far, "joiner_learned": len(nw.learnedSet(joiner, names[0])),
+		"joiner2_learned": len(nw.learnedSet(j2, names[0])), "behind_joiner2_learned": len(nw.learnedSet(j3, names[0])),
 		"events": tr.n, "preds": len(nw.preds), "names": names, "traces": 1})
 	nw.stop()
 }
